@@ -710,7 +710,56 @@ def compare_obs(ctx, ci, kind, kn, d, env, model, pool_index, replay):
 
 
 # ------------------------------------------------------------------------------------------------
+def lookalikes(ctx, clock, classes):
+    """Scopes that are unequal but print the same ((7,) / ("7",); ("a, b",) / ("a", "b")) are different scopes: the last
+    rendering of every display shows one row per scope, each with its own final counts."""
+    KN = ["console", "html", "ipython"]
+    pairs = [((7,), ("7",)), (("a, b",), ("a", "b")), ((None,), ("None",)), ((1.0,), ("1.0",))]
+    for pi, (sa, sb) in enumerate(pairs):
+        for kind in range(3):
+            for sec in ("run", "stale"):
+                clock.auto, clock.log = F(0), []
+                sink, stdout = [], io.StringIO()
+                obs = make_obs(kind, F(0), classes, sink, delay=0.0005)
+                ctx.case(("lookalike", pi, kind, sec))
+                with contextlib.redirect_stdout(stdout):
+                    obs.__enter__()
+                    try:
+                        obs.increment_total(section=sec, scope=sa, amount=2)
+                        obs.increment_total(section=sec, scope=sb, amount=3)
+                        for sc, n in ((sa, 2), (sb, 3)):
+                            for _ in range(n):
+                                obs.increment_running(section=sec, scope=sc)
+                                obs.increment_completed(section=sec, scope=sc)
+                            realtime.sleep(0.003)
+                    finally:
+                        obs.__exit__(None, None, None)
+                names = {(SEC[sec], scope_str(sa)): 0}
+                try:
+                    if kind == 0:
+                        chunks = re.split(r"(?m)^(?=uberjob, elapsed )", stdout.getvalue())
+                        renders = [parse_console(c, names) for c in chunks if c.startswith("uberjob, elapsed")]
+                    elif kind == 1:
+                        renders = [parse_html(b, names) for b in sink]
+                    else:
+                        renders = [parse_ipy(obs, names)] if obs._widget_cache else []
+                    rows = []
+                    for rnd in renders:          # the console prints a finished section once: take its last appearance
+                        rr_ = [r for s_, rr in rnd for r in rr if r[0] == 0]
+                        if rr_ or kind != 0:
+                            rows = rr_
+                    shown = sorted((r[2], r[4]) for r in rows)
+                except Exception as e:      # noqa
+                    shown = "unparsable: %s: %s" % (type(e).__name__, e)
+                if shown != [(2, 2), (3, 3)]:
+                    ctx.fail("lookalike-scopes:%s" % KN[kind], "%s observer: scopes %r and %r (same printed form) with final counts 2/2 and 3/3 "
+                             "are shown as %r in the last rendering" % (KN[kind], sa, sb, shown),
+                             {"kind": KN[kind], "section": sec, "scopes": [repr(sa), repr(sb)], "shown": repr(shown)})
+    clock.auto = None
+
+
 def threaded(ctx, sp, pool, clock, classes, pool_index):
+    lookalikes(ctx, clock, classes)
     slow_sink(ctx, sp, pool, clock, classes, pool_index)
     _threaded(ctx, sp, pool, clock, classes, pool_index)
 
